@@ -30,6 +30,23 @@ func emptyDir() string {
 	return sharedDir
 }
 
+// capBuffer keeps the first max bytes written to it and drops the rest.
+type capBuffer struct {
+	bytes.Buffer
+	max int
+}
+
+func (c *capBuffer) Write(p []byte) (int, error) {
+	if room := c.max - c.Buffer.Len(); room > 0 {
+		if len(p) <= room {
+			c.Buffer.Write(p)
+		} else {
+			c.Buffer.Write(p[:room])
+		}
+	}
+	return len(p), nil
+}
+
 type runRes struct {
 	Out     string `json:"out"`
 	Status  int    `json:"status"`
@@ -52,7 +69,7 @@ func runFile(file *syntax.File, timeout time.Duration, fresh bool) (res runRes) 
 		dir = hlib.FreshDir()
 		defer os.RemoveAll(dir)
 	}
-	var out bytes.Buffer
+	out := capBuffer{max: 1 << 18} // a runaway program must not fill the memory: 256 KiB of stdout are kept
 	env := []string{"PATH=/usr/local/sbin:/usr/local/bin:/usr/sbin:/usr/bin:/sbin:/bin",
 		"HOME=" + dir, "TMPDIR=" + dir, "LC_ALL=C", "PWD=" + dir}
 	r, err := interp.New(interp.StdIO(strings.NewReader(""), &out, io.Discard),
